@@ -43,6 +43,7 @@ mod imp {
         set_parity(&a);
         let mut d = Driver::new();
         d.ooc = a.flag("ooc");
+        d.primary = a.str("prop", "");
         d.profile = if a.str("profile", "general") == "mut" { Profile::MutCentred } else { Profile::General };
         let t0 = Instant::now();
         match a.mode.as_str() {
